@@ -240,6 +240,27 @@ theorem leak_rejected (p : Prog) (hwf : WF p) (g s : Nat) (hg : g = 0 ∨ Below 
     · simpa using (below_claimed p hwf st hdi hg h0).1
   exact no_outer_leak p hwf b tr h g s hg' hs pg l hpg hl a ha hleak
 
+/-! ### the remaining rejections are single tests of the model (exercised by the correspondence) -/
+
+/-- **claimed_twice_rejected**: a graph whose argument list meets the arguments already claimed by the
+    graphs discovered below it is rejected (`BuildError`). -/
+theorem claimed_twice_rejected (pg : PGraph) (g : Nat) (st : DState) (acc : Acc)
+    (h : inter (argsFor pg acc) acc.claimed ≠ []) :
+    finishDiscover pg g st acc = .error (.build "already-claimed") := by
+  simp [finishDiscover, h]
+
+/-- **multiple_owner_rejected**: a Graph object already owned by another node is rejected. -/
+theorem multiple_owner_rejected (rec : Nat → DState → Except Err DState) (n o sub : Nat)
+    (x : DState × Acc) (st : DState) (hr : rec sub x.1 = .ok st) (ho : lookupN st.owner sub = some o)
+    (hne : o ≠ n) : subStep rec n x sub = .error (.build "multiple-owners") := by
+  simp [subStep, hr, ho, hne]
+
+/-- **double_introduction_rejected** (`Scope.update(force=True)`): compiling a vertex that is
+    already in the flat scope raises `ScopeError`. -/
+theorem double_introduction_rejected (p : Prog) (rec : Nat → CState → Except Err CState)
+    (cs : CState) (v : V) (h : v ∈ cs.intro) : emitStep p rec cs v = .error .scope := by
+  simp [emitStep, h]
+
 /-! ### non-vacuity: the nested-If program of the design probe, an outer leak, a sibling leak -/
 
 /-- ids: 0 x, 1 c (arguments); 2 e = Neg(x); 3 Neg(e) [outer else]; 4 Add(e, x) [inner then];
